@@ -234,6 +234,7 @@ func condKernel(rel, fn string, markers []string, leanName, params string, sp Sp
 				t.aliases[k] = v
 			}
 			t.aliasesOnPathTo(i)
+			t.aliasIfInit(i)
 			c := norm(src(t.subst(i.Cond)))
 			for _, m := range markers {
 				if !strings.Contains(c, norm(m)) {
@@ -248,6 +249,66 @@ func condKernel(rel, fn string, markers []string, leanName, params string, sp Sp
 				t.aliases[k] = v
 			}
 			t.aliasesOnPathTo(ss[0])
+			t.aliasIfInit(ss[0].(*ast.IfStmt))
+		}
+		if len(ss) == 0 && sp.Canon {
+			// not in fn itself: look in the same-file helpers fn calls, their parameters standing for the call's arguments
+			t.aliases = map[string]ast.Expr{}
+			for k, v := range base {
+				t.aliases[k] = v
+			}
+			type hit struct {
+				t2 *tr
+				i  *ast.IfStmt
+				fn string
+			}
+			var hits []hit
+			ast.Inspect(fd.Body, func(n ast.Node) bool {
+				c, ok := n.(*ast.CallExpr)
+				if !ok {
+					return true
+				}
+				hfd, recv := t.resolveHelper(c)
+				if hfd == nil || hfd.Body == nil || hfd == fd {
+					return true
+				}
+				hsp := sp
+				hsp.ParamNames = nil
+				t.aliasesOnPathTo(c)
+				t2, ok := t.bindHelper(hfd, recv, c, hsp)
+				if !ok {
+					return true
+				}
+				t2.fd = hfd
+				hbase := map[string]ast.Expr{}
+				for k, v := range t2.aliases {
+					hbase[k] = v
+				}
+				for _, st := range findStmts(hfd, func(s ast.Stmt) bool { _, ok := s.(*ast.IfStmt); return ok }) {
+					i := st.(*ast.IfStmt)
+					t2.aliases = map[string]ast.Expr{}
+					for k, v := range hbase {
+						t2.aliases[k] = v
+					}
+					t2.aliasesOnPathTo(i)
+					t2.aliasIfInit(i)
+					cnd := norm(src(t2.subst(i.Cond)))
+					all := true
+					for _, m := range markers {
+						all = all && strings.Contains(cnd, norm(m))
+					}
+					if all {
+						t3 := &tr{sp: hsp, file: t.file, fd: hfd, aliases: t2.aliases}
+						hits = append(hits, hit{t3, i, hfd.Name.Name})
+					}
+				}
+				return true
+			})
+			if len(hits) == 1 {
+				h := hits[0]
+				return fmt.Sprintf("/-- generated from %s func %s (in its helper %s): `if %s` -/\ndef %s %s : Bool :=\n  %s\n", rel, fn, h.fn, src(h.i.Cond), leanName, params, h.t2.expr(h.i.Cond))
+			}
+			panic(bail{fmt.Sprintf("%s: expected exactly one `if` mentioning %v in %s or the helpers it calls, found %d", rel, markers, fn, len(hits))})
 		}
 		if len(ss) != 1 {
 			panic(bail{fmt.Sprintf("%s: expected exactly one `if` mentioning %v in %s, found %d", rel, markers, fn, len(ss))})
